@@ -7,7 +7,8 @@ since fix 51e634f the op types are listed in ascending key order and each builde
 (the unit had carried "a builder accepts at most one of the op types present" as a PRECONDITION, which hid the defect repaired by that fix)."""
 import re
 
-from vf.unit import Unit, unmap_iter_collect_general, unhashset_collect, HASH_SET_ORDER_STUB
+from vf.unit import Unit, unmap_iter_collect_general, unhashset_collect, HASH_SET_ORDER_STUB, unoption_or_chain
+from vf.extract import ExtractError
 from units.openin import slice_loop_body, slice_from_through_loop
 
 PRELUDE = r'''
@@ -37,7 +38,20 @@ impl TablePacking {
     #[verifier::external_body] pub fn npo_lanes(&self, t: &NpoTypeId) -> (r: Option<usize>)
         ensures r is Some <==> self.overrides@.dom().contains(*t), r matches Some(l) ==> l == self.overrides@[*t] { unimplemented!() }
 }
-pub open spec fn lanes_for(p: &TablePacking, b: AirBuilder, t: NpoTypeId) -> usize { if p.overrides@.dom().contains(t) { p.overrides@[t] } else { default_lanes(b) } }
+/// the lane count the keys resolve for a table: some function of (packing, builder, op type). WHICH function is the business of the slice
+/// `lane_resolution[keys_vs_prover]` below, where the statement that computes it is checked against the prover's own resolution.
+pub uninterp spec fn lanes_for(p: &TablePacking, b: AirBuilder, t: NpoTypeId) -> usize;
+/// stands for the statement `let lanes = <expr over packing, op_type, builder>;` of the loop (the statement itself is the first half of the slice `lane_resolution[keys_vs_prover]`)
+#[verifier::external_body]
+pub fn resolve_lanes_keys_(packing: &TablePacking, op_type: &NpoTypeId, builder: &AirBuilder) -> (r: usize) ensures r == lanes_for(packing, *builder, *op_type) { unimplemented!() }
+pub uninterp spec fn recompose_type() -> NpoTypeId;
+pub uninterp spec fn coeff_type() -> NpoTypeId;
+impl NpoTypeId {
+    #[verifier::external_body] pub fn recompose() -> (r: NpoTypeId) ensures r == recompose_type() { unimplemented!() }
+    #[verifier::external_body] pub fn recompose_with_coeff_lookups() -> (r: NpoTypeId) ensures r == coeff_type() { unimplemented!() }
+}
+/// RecomposeProver<D>: the table prover of the recompose tables (its `lanes` is its own default, "kept in sync with the corresponding RecomposeAirBuilder")
+pub struct RecomposeProver { pub lanes: usize, pub coeff_lookups: bool }
 /// HashMap<NpoTypeId, Vec<Val>> by its view; `entries()` is its iteration: every key exactly once, in an order the hash function chooses
 pub struct PrepMap { pub m: Ghost<Map<NpoTypeId, PrepBase>> }
 impl PrepMap {
@@ -88,6 +102,24 @@ pub fn boxed<const D: usize>(x: Poseidon2AirBuilderForConfig<D>) -> (r: AirBuild
 '''
 
 
+def _stmt_at(text, start_re):
+    """the statement starting at the (single) match of start_re, through its `;` at nesting depth 0"""
+    ms = list(re.finditer(start_re, text))
+    if not ms:
+        return None
+    i, depth = ms[0].start(), 0
+    while i < len(text):
+        ch = text[i]
+        if ch in '({[':
+            depth += 1
+        elif ch in ')}]':
+            depth -= 1
+        elif ch == ';' and depth == 0:
+            return text[ms[0].start():i + 1]
+        i += 1
+    return None
+
+
 def build():
     u = Unit('order', ['C18'])
     u.rlimit = 80
@@ -121,7 +153,12 @@ def build():
     g.rewrite_re('R11', r'let prep_base = &non_primitive_base\[op_type\];', 'let prep_base = non_primitive_base.at(op_type);', min_count=0)
     # the hash-ordered scan of a tree without the fix
     g.rewrite_re('R5', r'for \(op_type, prep_base\) in non_primitive_base\.iter\(\) \{', 'let entries_ = non_primitive_base.entries(); for e_ in 0..entries_.len() { let (op_type, prep_base) = (&entries_[e_].0, &entries_[e_].1);', min_count=0)
-    g.rewrite_re('R6', r'packing\s*\.npo_lanes\(op_type\)\s*\.unwrap_or_else\(\|\| builder\.lanes\(\)\)', '(match packing.npo_lanes(op_type) { Some(l_) => l_, None => builder.lanes() })', min_count=0)
+    # R14-style lifting: the statement `let lanes = EXPR;` is checked on its own (slice lane_resolution[keys_vs_prover]); here it is a call of a function of (packing, op_type, builder)
+    lanes_stmt = _stmt_at(g.body, r'let lanes = packing')
+    if lanes_stmt is None:
+        raise ExtractError('lost anchor in get_airs_and_degrees_with_prep[npo_air_order]: `let lanes = packing ...;`')
+    g.body = g.body.replace(lanes_stmt, 'let lanes = resolve_lanes_keys_(packing, op_type, builder);', 1)
+    g.rewrites.append(('R14', 'statement `let lanes = <expr>;` -> `let lanes = resolve_lanes_keys_(packing, op_type, builder);`', 'the statement is verified in the slice lane_resolution[keys_vs_prover]; here only that it is a function of (packing, op type, builder)'))
     M_ = 'non_primitive_base.m@'
     ARGS = f'{M_}, packing, min_height, constraint_profile'
     g.ensures('air_order_is_the_builder_registration_order_and_each_builder_takes_its_first_type_in_key_order',
@@ -151,7 +188,32 @@ def build():
             ('ctx', f'm == {M_} && bs == non_primitive_air_builders@ && tp0 == old(table_preps)@ && op_types@ == sorted_keys(m) && forall|k: int| 0 <= k < op_types@.len() ==> m.dom().contains(#[trigger] op_types@[k])'),
             ('airs_of_the_builders_so_far_in_registration_order', f'table_preps@ == tp0 + airs_of(bs, bi_ as int, {ARGS})'),
         ])
+    # ---- lane_resolution[keys_vs_prover]: the two statements that resolve a table's lane count, one from the key generation, one from the prover, side by side (verbatim, R6 only)
+    lr = u.extract(C, '', 'get_airs_and_degrees_with_prep', 'lane_resolution[keys_vs_prover]')
+    import os
+    from vf.extract import REPO
+    pr_src = open(os.path.join(REPO, 'circuit-prover/src/batch_stark_prover/recompose.rs')).read()
+    mfn = re.search(r'fn batch_instance_base<SC>\(', pr_src)
+    if not mfn:
+        raise ExtractError('lost anchor: RecomposeProver::batch_instance_base')
+    pbody = pr_src[mfn.start():]
+    p_type = _stmt_at(pbody, r'let op_type = if self\.coeff_lookups')
+    p_lanes = _stmt_at(pbody, r'let lanes = packing')
+    if p_type is None or p_lanes is None:
+        raise ExtractError('lost anchor in RecomposeProver::batch_instance_base: `let op_type = if self.coeff_lookups ..;` / `let lanes = packing ..;`')
+    p_type = re.sub(r'\bop_type\b', 'op_type_p', p_type)
+    p_lanes = re.sub(r'\bop_type\b', 'op_type_p', re.sub(r'let lanes\b', 'let lanes_p', p_lanes))
+    lr.body = '{\n' + lanes_stmt + '\n' + p_type + '\n' + p_lanes + '\n(lanes, lanes_p)\n}'
+    lr.rewrites.append(('R13', 'function body := the statement `let lanes = ..;` of get_airs_and_degrees_with_prep, then the statements `let op_type = ..;` and `let lanes = ..;` of RecomposeProver::batch_instance_base (circuit-prover/src/batch_stark_prover/recompose.rs) with its locals renamed op_type_p / lanes_p, then the pair of both results',
+                        'everything else of both functions; the slice relates the two lane counts for one recompose table'))
+    lr.set_sig('R11', 'fn lane_resolution(packing: &TablePacking, op_type: &NpoTypeId, builder: &AirBuilder, self_: &RecomposeProver) -> (usize, usize)', sliced=True)
+    lr.rewrite_re('R11', r'\bself\.', 'self_.')
+    unoption_or_chain(lr)
+    lr.requires('the_builder_and_the_prover_of_one_recompose_table', 'default_lanes(*builder) == self_.lanes && *op_type == (if self_.coeff_lookups { coeff_type() } else { recompose_type() })')
+    lr.ensures('the_keys_and_the_prover_resolve_the_same_lane_count_for_the_table', 'ret.0 == ret.1')
+    u.assume('lane_resolution: the AIR builder and the table prover of a recompose table carry the same own default lane count (both are constructed from the backend\'s recompose_lanes; "must be kept in sync" in the source) -- a precondition of the slice')
     u.text('verus! {')
+    u.emit(lr, vis='pub')
     u.emit(pb, vis='pub')
     u.emit(g, vis='pub')
     u.text('}')
